@@ -9,12 +9,14 @@
        for a frame with [mf_orig = id] which (strict) is already closed;
      - [chk_C05_input]: T_INPUT never goes to a screen all of whose stack entries are shielded.
    The first conjunct is PROVED for every session (the strict form under the trace hypothesis [no_f13]:
-   no force_quit and no nested loop entered while the stop flag is cleared — finding F13).
+   no force_quit and no nested loop entered while the stop flag is cleared — finding F13), together with
+   [chk_C05_below]: what lies beneath an open modal frame stays in place.
    The second conjunct is REFUTED (finding F16, two sessions below, reproduced event-for-event on the real
    implementation): it stays monitored by the check only. *)
 From Coq Require Import ZArith NArith List Bool.
 From RecordUpdate Require Import RecordUpdate.
-From SL Require Import PyInt LoopSem ScreenSem ScreenMon proofs.C05Proofs.
+From SL Require Import PyInt LoopSem ScreenSem ScreenMon proofs.C05Proofs proofs.C05Hyp.
+From SL Require Monitors.
 Import ListNotations.
 
 (* ================================================================== 0. what is proved of the acceptor *)
@@ -44,7 +46,13 @@ Theorem C05_returns_only_after_close_partial :
   forall specs specl typed quit run_empty fuel acts,
     let t := rev (trace (snd (app_run_all specs specl typed quit run_empty fuel acts))) in
     no_f13 t = true -> sok chk_C05_shield typed t = true.
-Proof. intros specs specl typed quit run_empty fuel acts. exact (proj2 (C05_shield_session specs specl typed quit run_empty fuel acts)). Qed.
+Proof. intros specs specl typed quit run_empty fuel acts. exact (proj1 (proj2 (C05_shield_session specs specl typed quit run_empty fuel acts))). Qed.
+
+(* the hypothesis in the vocabulary of the event-loop monitors (Monitors.v): no EForceQuit event, and the
+   world rebuilt from the trace records no level "opened while the loops were already told to stop" *)
+Theorem C05_hypothesis_meaning : forall t,
+  no_f13 t = no_force_quit t && isnil (Monitors.w_stillborn (loop_world t)).
+Proof. exact no_f13_spec. Qed.
 
 (* consequently the monitors of ScreenMon.v accept a session trace iff its T_INPUT events are accepted *)
 Theorem C05_modulo_input :
@@ -100,11 +108,32 @@ Theorem C05_caller_resumes :
     end.
 Proof. exact caller_resumes_eq. Qed.
 
+(* "When the call returns the caller's screen is still on the stack in its place": what the model guarantees.
+   [below w f] = the entries strictly beneath the current entry of frame f (the pushed entry or what replaced
+   it).  At every stack primitive (append, add_first, pop), for every frame open before it and still open
+   after it, these entries are the same, in the same order; the only possible additions are further down, at
+   the very bottom of the stack (add_first).  Nothing is said of a frame once it is closed: after a modal
+   screen has closed itself its callback may go on closing the screens beneath it. *)
+Theorem C05_beneath_untouched :
+  forall specs specl typed quit run_empty fuel acts,
+    sok chk_C05_below typed (rev (trace (snd (app_run_all specs specl typed quit run_empty fuel acts)))) = true.
+Proof. intros. exact (proj2 (proj2 (C05_shield_session specs specl typed quit run_empty fuel acts))). Qed.
+
+(* ... and no other event touches the stack, the entry being replaced, or a frame's current entry: the frames
+   are the same list, or (T_MODAL_RETURN) the same list without the returning frame *)
+Theorem C05_only_stack_primitives_move : forall w e,
+  match e with EUser tag _ _ => tag <> T_STACK | _ => True end ->
+  sw_stack (sworld_step w e) = sw_stack w /\ sw_replaced (sworld_step w e) = sw_replaced w /\
+  (sw_modal (sworld_step w e) = sw_modal w \/
+   exists id, sw_modal (sworld_step w e) = remove_first (fun f => (mf_orig f =? id)%nat) (sw_modal w)).
+Proof. exact step_not_stack. Qed.
+
 (* ================================================================== 5. examples *)
 (* modal pushed from input(), from refresh(), from show_all(), from another modal (depth 3), with pushes,
    replaces and closes inside: the full strict monitor accepts, every push returned *)
 Example C05_example_from_input :
   sok chk_C05 C05Ex.ex1_typed (snd C05Ex.ex1) = true /\ no_f13 (snd C05Ex.ex1) = true /\
+  sok chk_C05_below C05Ex.ex1_typed (snd C05Ex.ex1) = true /\
   C05Ex.count_tag T_MODAL_RETURN (snd C05Ex.ex1) = 1 /\ C05Ex.count_tag T_INPUT (snd C05Ex.ex1) = 5.
 Proof. vm_compute. repeat split. Qed.
 Example C05_example_from_refresh :
@@ -115,15 +144,21 @@ Example C05_example_from_show_all :
 Proof. vm_compute. repeat split. Qed.
 Example C05_example_depth3 :
   sok chk_C05 C05Ex.ex4_typed (snd C05Ex.ex4) = true /\ no_f13 (snd C05Ex.ex4) = true /\
+  sok chk_C05_below C05Ex.ex4_typed (snd C05Ex.ex4) = true /\
   C05Ex.count_tag T_MODAL_RETURN (snd C05Ex.ex4) = 3.
 Proof. vm_compute. repeat split. Qed.
-(* a refresh of the entry beneath an open modal entry is rejected *)
+(* a refresh of the entry beneath an open modal entry is rejected; so is the loss of the entry beneath a
+   modal entry whose frame is open *)
 Example C05_monitor_rejects :
-  sok chk_C05_shield_partial [] C05Ex.bad_trace = false /\ sok chk_C05_partial [] C05Ex.bad_trace = false.
+  sok chk_C05_shield_partial [] C05Ex.bad_trace = false /\ sok chk_C05_partial [] C05Ex.bad_trace = false /\
+  sok chk_C05_below [] C05Ex.bad_trace = true /\ sok chk_C05_below [] C05Ex.bad_below = false.
 Proof. vm_compute. repeat split. Qed.
 
 Print Assumptions C05_acceptor_split.
 Print Assumptions C05_modal_shield_partial.
 Print Assumptions C05_returns_only_after_close_partial.
+Print Assumptions C05_hypothesis_meaning.
 Print Assumptions C05_modulo_input.
 Print Assumptions C05_caller_resumes.
+Print Assumptions C05_beneath_untouched.
+Print Assumptions C05_only_stack_primitives_move.
